@@ -95,7 +95,12 @@ def main(argv):
   modname = 'vf.harness.' + pid.lower()
   sys.path.insert(0, ROOT)
   os.environ['VERIF_NO_CROSSHAIR'] = '1'
-  mod = importlib.import_module(modname)
+  try:
+    mod = importlib.import_module(modname)
+  except Exception:
+    import traceback
+    print('HARNESS-ERROR: cannot import %s: %s' % (modname, traceback.format_exc()[-800:]))
+    return 2
   known = load_known(pid)
   rng = random.Random(seed)
 
